@@ -1035,14 +1035,16 @@ def run(ctx):
     })
     ctx.assumptions += [
         'configuration `stubs`; default Project(root) (smart_sys_path), one private SameEnvironment '
-        '(helper subprocess) per process segment of a history',
+        '(helper subprocess) per worker / per forked process segment; Project(root, added_sys_path=[root/lib])',
         'oracle = a new interpreter (subprocess) with an empty settings.cache_directory analysing a '
         'copy of the snapshot in another directory; results are compared with paths made relative '
         'to the project root',
-        '"new process" of a restart event / start of a history = a process forked from a worker '
-        'that imported jedi and parsed typeshed stubs through a project with disjoint module names '
-        'and paths, with a new helper subprocess; settings.cache_directory is shared by all '
-        'segments of a history and private to the history',
+        'histories without restart run in a long-lived worker process (one helper per worker) in '
+        'directories never seen before; "new process" of a restart event = a process forked from '
+        'the worker (which never saw the history\'s directories) with a new helper subprocess; '
+        'settings.cache_directory is shared by all segments of a history and private to it; '
+        'differences without a clock explanation are re-judged from the pristine parent before '
+        'being reported',
         'file clock: virtual, origin %d, +1 s per event on written files and the directories whose '
         'entries changed or that contain a written file; ~s = no advance; ~o = file mtime %d, '
         'directories advance; pickles are stamped with the virtual time of the step that wrote them'
